@@ -45,17 +45,29 @@ def main():
         meta = json.load(open(meta_path)) if os.path.exists(meta_path) else {}
         scratch = f'/dev/shm/vsim-seeded-{os.getpid()}-{sid}'
         env = dict(os.environ, PYTHONPATH='/repo/src', PYTHONDONTWRITEBYTECODE='1')
-        clean_demo = sh([PY, demo], env=env, timeout=600).returncode if os.path.exists(demo) else None
-        ap = sh(['git', '-C', '/repo', 'apply', patch])
+        base = meta.get('base_commit')   # a change written against an older commit of /repo that a later fix: commit made moot: checked against that commit, in a scratch export
+        srcenv = {}
+        if base:
+            broot = f'/dev/shm/vsim-seeded-base-{os.getpid()}'
+            shutil.rmtree(broot, ignore_errors=True)
+            os.makedirs(broot)
+            subprocess.run(f'git -C /repo archive {base} src | tar -x -C {broot}', shell=True, check=True)
+            env = dict(env, PYTHONPATH=f'{broot}/src')
+            clean_demo = sh([PY, demo], env=env, timeout=1200).returncode
+            ap = sh(['git', 'apply', '--directory', broot.lstrip('/'), '--unsafe-paths', patch], cwd='/') if False else sh(['patch', '-p1', '-d', broot, '-i', patch])
+            srcenv = dict(VSIM_NUTILS_SRC=f'{broot}/src')
+        else:
+            clean_demo = sh([PY, demo], env=env, timeout=1200).returncode if os.path.exists(demo) else None
+            ap = sh(['git', '-C', '/repo', 'apply', patch])
         if ap.returncode != 0:
             print(sid, 'PATCH DOES NOT APPLY', ap.stderr[:300])
             summary.append((sid, 'patch-does-not-apply'))
             continue
         runs = []
         try:
-            patched_demo = sh([PY, demo], env=env, timeout=600).returncode if os.path.exists(demo) else None
+            patched_demo = sh([PY, demo], env=env, timeout=1200).returncode if os.path.exists(demo) else None
             for seed in seeds:
-                e = dict(os.environ, VERIF_SEED=seed, VSIM_EVIDENCE_DIR=os.path.join(scratch, 'evidence'), VSIM_REPLAY_DIR=os.path.join(scratch, 'replays'), PYTHONDONTWRITEBYTECODE='1')
+                e = dict(os.environ, VERIF_SEED=seed, VSIM_EVIDENCE_DIR=os.path.join(scratch, 'evidence'), VSIM_REPLAY_DIR=os.path.join(scratch, 'replays'), PYTHONDONTWRITEBYTECODE='1', **srcenv)
                 if count:
                     e['VSIM_COUNT'] = count
                 t0 = time.time()
@@ -66,10 +78,12 @@ def main():
         finally:
             sh(['git', '-C', '/repo', 'checkout', '--', '.'])
             shutil.rmtree(scratch, ignore_errors=True)
+            if base:
+                shutil.rmtree(broot, ignore_errors=True)
         assert repo_clean()
         caught = all(r['exit'] == 1 and r['violation_lines'] for r in runs)
         some = any(r['exit'] == 1 and r['violation_lines'] for r in runs)
-        meta['checked'] = dict(cmd=f'git -C /repo apply {patch}; {PY} /verif/bin/vsim check {prop} --tier quick (VERIF_SEED in {seeds}' + (f', VSIM_COUNT={count}' if count else '') + '); git -C /repo checkout -- .',
+        meta['checked'] = dict(cmd=(f'(scratch export of /repo at {base} under /dev/shm, patch applied there, VSIM_NUTILS_SRC pointing at it) ' if base else '') + f'git -C /repo apply {patch}; {PY} /verif/bin/vsim check {prop} --tier quick (VERIF_SEED in {seeds}' + (f', VSIM_COUNT={count}' if count else '') + '); git -C /repo checkout -- .',
                                demo_exit_on_clean_tree=clean_demo, demo_exit_on_patched_tree=patched_demo, runs=runs,
                                caught='yes' if caught else 'some seeds' if some else 'no')
         json.dump(meta, open(meta_path, 'w'), indent=1)
